@@ -951,4 +951,17 @@ Example url_with_anchor : url (s2n "H") KJs (Some (s2n "I")) = Gen.C19.url_js_wi
 Proof. reflexivity. Qed.
 Example url_without_anchor : url (s2n "H") KCss None = Gen.C19.url_css_without_input.
 Proof. reflexivity. Qed.
+(* The state of the model is a dictionary that loses entries only through OEvict / OClear.  That is a statement about the
+   CODE under test (cache.py get_component_media_cache, as django.core.cache.backends.base.BaseCache.__init__ reads the
+   params): the default media cache is a LocMemCache whose entries never expire (default_timeout None; a number would make
+   every script vanish that many seconds after it was FIRST stored - the has_key guard never re-stores) and which is never
+   culled for size (LocMemCache drops the least recently used 1/cull_frequency of the entries when max_entries is reached,
+   possibly in the middle of the render that has just stored them). *)
+Example media_cache_class_anchor :
+  Gen.C19.media_cache_class = s2n "django.core.cache.backends.locmem.LocMemCache".
+Proof. reflexivity. Qed.
+Example media_cache_timeout_anchor : Gen.C19.media_cache_timeout = None.
+Proof. reflexivity. Qed.
+Example media_cache_unbounded_anchor : N.leb (2 ^ 62) Gen.C19.media_cache_max_entries = true.
+Proof. reflexivity. Qed.
 Local Close Scope string_scope.
